@@ -513,6 +513,7 @@ fn gen_call(r: &mut Rng, sc: &SlotCtx, faults: &Faults, mode: Mode) -> Call {
         0 => Call::Scalar { x: kx(r), y: ky(r) },
         1 => Call::Interp { x: kx(r), y: ky(r) },
         2 => Call::InterpInto { x: kx(r), y: ky(r), buf: gen_buf(r, &sc.trailing, faults, false) },
+        3 if sc.two && mode != Mode::C18 && r.chance(1, 4) => Call::Array { q: mesh_query(r, &sc.keys_x, &sc.keys_y, 3) },
         k @ (3 | 4) => {
             let ty = [QTy::Q0, QTy::Q1, QTy::Q2, QTy::Q3, QTy::QDyn][r.weighted(&[1, 5, 2, 1, 3])];
             let max_elems = if mode == Mode::C17Miri { 6 } else { 12 };
@@ -603,6 +604,29 @@ fn gen_call(r: &mut Rng, sc: &SlotCtx, faults: &Faults, mode: Mode) -> Call {
         8 => Call::Cow,
         _ => gen_sibling(r, sc),
     }
+}
+
+/// a mesh-grid query over a few x and y keys (the usual way to evaluate a 2-D interpolator): in
+/// row-major order the x coordinate stays the same for a whole run of consecutive points
+fn mesh_query(r: &mut Rng, kx: &[f64], ky: &[f64], max_side: usize) -> QSpec {
+    let a = r.range(2, max_side.max(2));
+    let b = r.range(2, max_side.max(2));
+    let xv: Vec<f64> = (0..a).map(|_| *r.pick(kx)).collect();
+    let yv: Vec<f64> = (0..b).map(|_| *r.pick(ky)).collect();
+    let mut xs = vec![];
+    let mut ys = vec![];
+    for &x in xv.iter() {
+        for &y in yv.iter() {
+            xs.push(Fb(x));
+            ys.push(Fb(y));
+        }
+    }
+    let (ty, shape) = match r.weighted(&[3, 2, 1]) {
+        0 => (QTy::Q2, vec![a, b]),
+        1 => (QTy::Q1, vec![a * b]),
+        _ => (QTy::QDyn, vec![a, b]),
+    };
+    QSpec { ty, shape, xs, ys, ys_shape: None, lay: Lay::C, ys_lay: Lay::C }
 }
 
 fn gen_sibling(r: &mut Rng, sc: &SlotCtx) -> Call {
@@ -824,6 +848,7 @@ fn gen_hammer(r: &mut Rng, want: Option<Kind>) -> Generated {
         let call = match r.weighted(&[4, 3, 3, 1]) {
             0 => Call::Scalar { x, y },
             1 => Call::Interp { x, y },
+            2 if two && r.chance(1, 2) => Call::Array { q: mesh_query(r, &kx, &ky, 3) },
             2 => {
                 let n = r.range(2, 4);
                 // mostly the rank-1 fast path; sometimes the general n-d path (static or dynamic)
@@ -907,6 +932,7 @@ pub fn gen_hammer_wide(seed: u64, want: Option<Kind>) -> Generated {
         let call = match r.weighted(&[4, 3, 3, 1]) {
             0 if cfg.shape.len() == if two { 2 } else { 1 } => Call::Scalar { x, y },
             0 | 1 => Call::Interp { x, y },
+            2 if two && r.chance(1, 2) => Call::Array { q: mesh_query(r, &kx, &ky, 4) },
             2 => {
                 let n = r.range(2, 5);
                 let (ty, shape) = match r.weighted(&[6, 2, 2]) {
